@@ -211,6 +211,23 @@ def _check_case(case, res, count=True):
                     model, objs = build_real(lang, am, fac, Model, None)
                     with cpu_budget(CASE_CPU_S):
                         ag = AttackGraph(g, model)
+                    rev = {id(o): a2 for a2, o in objs.items()}
+                    per_asset = {}
+                    for n in ag.nodes:
+                        per_asset.setdefault(rev.get(id(n.asset)), {})[n.name] = n
+                    for a2 in am.assets:
+                        want = lang.steps(a2['type'])
+                        got = per_asset.get(a2['id'], {})
+                        if list(got) != list(want):
+                            diverge('attackgraph.steps:asset-exposes-other-steps',
+                                    'asset %s of type %s exposes %s in the attack graph, the fold gives %s' % (a2['id'], a2['type'], list(got), list(want)))
+                            break
+                        for sn, node in got.items():
+                            if node.attributes != want[sn]:
+                                diverge('attackgraph.steps:node-attributes-differ-from-fold',
+                                        'asset %s (%s) step %s: %s' % (a2['id'], a2['type'], sn, first_diff(want[sn], node.attributes)))
+                    if count:
+                        res.count('attackgraph-nodes-compared-with-fold', len(ag.nodes))
                 elif op[0] == 'ag-regen':
                     if ag is not None:
                         with cpu_budget(CASE_CPU_S):
